@@ -1,6 +1,7 @@
 import GwModel.Drv.Codec
 import GwModel.Scrub
 import GwModel.Select
+import GwModel.Gen.Facts
 /-! gwdrv: one JSON object per line in, one per line out (DESIGN §2.2). Core + Lean.Data.Json only. -/
 open Lean Codec
 
@@ -19,11 +20,8 @@ def handle (j : Json) : Json :=
     | some ps => Json.mkObj [("paths", encPaths ps)]
     | none => Json.mkObj [("err", .str "could not find field for point")]
   | "select" =>
-    -- {"possible":[..],"configured":[..],"parent":"A","internal":"gw","order":["configured","parent","internal"]}
-    let order := (strList j "order").map fun s =>
-      if s == "configured" then Facts.PrioSource.configured else if s == "parent" then .parent
-      else if s == "internal" then .internal else .unknown
-    match Sel.choose (strList j "possible") (Sel.prioOf order (strList j "configured") (getStr j "parent") (getStr j "internal")) with
+    -- {"possible":[..],"configured":[..],"parent":"A","internal":"gw"}; the priority order is the one read from plan.go
+    match Sel.selectLocation Gen.selectLoc (strList j "possible") (strList j "configured") (getStr j "parent") (getStr j "internal") with
     | some l => Json.mkObj [("loc", .str l)]
     | none => Json.mkObj [("loc", .null)]
   | op => Json.mkObj [("bad-op", .str op)]
